@@ -1,5 +1,6 @@
 import MosnVerif.Lemmas.Headers
 import MosnVerif.Lemmas.Retry
+import MosnVerif.Lemmas.RouteFinalize
 /-!
 # C17 — route actions, timeouts and the retry policy are applied exactly as configured (property theorems only)
 
@@ -328,5 +329,99 @@ example : localReply { hasRoute := true, direct := some ⟨418, "teapot"⟩, red
 #guard finalizePath ⟨"/new", ""⟩ "/old" "/old/rest" id == ("/new/rest", some "/old/rest")
 
 end Retry
+
+/-! ## Part 3 — a hop's route actions on a request that ARRIVES WITH STATE
+
+`Model/RouteFinalize.lean`: `finalizeRequest r s` is `<rule>.FinalizeRequestHeaders` on the request state `s` = (incoming header map,
+path variable, host variable); `finalizePathHeader` / `finalizeRequestHeaders` and the call order of the three HTTP rules are
+regenerated statement by statement (`Gen/RouteFinalize.lean`) — every read of the header map or of a variable the Go code makes
+is part of the function the theorems are about.  All theorems quantify over the WHOLE incoming state: the header map is client
+controlled and is written by every MOSN hop before this one. -/
+section Finalize
+open MosnVerif.Model.RouteFinalize MosnVerif.Gen.RouteFinalize
+
+/-- **finalize_path_spec**: for every route, every incoming header map, host variable and received path, the path variable after
+the hop is `rewrite(received path)` — a function of the route and of the received path ONLY -/
+theorem finalize_path_spec (r : Route) (s : Req) : (finalizeRequest r s).path = specPath r s.path :=
+  finalizeRequest_path r s
+
+/-- the path rewrite does not depend on anything the request carries besides the path: two requests with the same received
+path — whatever headers (x-mosn-original-path included) and host variable they arrive with — leave the hop with the same path -/
+theorem rewrite_ignores_incoming_state (r : Route) (s s' : Req) (hp : s.path = s'.path) :
+    (finalizeRequest r s).path = (finalizeRequest r s').path := by
+  rw [finalize_path_spec, finalize_path_spec, hp]
+
+/-- **finalize_headers_spec**: every header after the hop, for every incoming header map: the original-path header is the RECEIVED
+path whenever a rewrite applied (whatever value arrived in it, whatever the configured mutations do to it); every other header —
+and the original-path header when no rewrite applied — is the fold of exactly the configured mutations naming it over the value
+that arrived (route → virtual host → router config) -/
+theorem finalize_headers_spec (r : Route) (s : Req) (k : String) :
+    get (finalizeRequest r s).hdrs k = specHeader r s k := finalizeRequest_header r s k
+
+/-- **original_is_received**: when this hop rewrites, the recorded original path is this hop's received path, regardless of a
+pre-existing x-mosn-original-path header -/
+theorem original_is_received (r : Route) (s : Req) (p np : String) (hp : s.path = some p) (hr : specRewrite r p = some np) :
+    (finalizeRequest r s).path = some np ∧ get (finalizeRequest r s).hdrs headerOriginalPath = some p := by
+  constructor
+  · rw [finalize_path_spec, hp]; simp [specPath, hr]
+  · rw [finalize_headers_spec]; simp [specHeader, rewrites, hp, hr]
+
+/-- prefix rewrite, stated outright: a received path `matched ++ rest` leaves as `prefix_rewrite ++ rest`, recorded original =
+received path, for every incoming header map -/
+theorem prefix_rewrite_regardless (r : Route) (s : Req) (rest : List Char) (hc : r.cfg.prefixRewrite ≠ "")
+    (hp : s.path = some (String.ofList (r.matched.toList ++ rest))) (hne : r.matched.toList ++ rest ≠ []) :
+    (finalizeRequest r s).path = some (r.cfg.prefixRewrite ++ String.ofList rest) ∧
+    get (finalizeRequest r s).hdrs headerOriginalPath = s.path := by
+  have hd : List.drop r.matched.length (r.matched.toList ++ rest) = rest := by
+    have : r.matched.length = r.matched.toList.length := String.length_toList.symm
+    rw [this, List.drop_left]
+  have hr : specRewrite r (String.ofList (r.matched.toList ++ rest)) = some (r.cfg.prefixRewrite ++ String.ofList rest) := by
+    simp [specRewrite, hc, hd]
+    simpa using hne
+  rw [hp]
+  exact original_is_received r s _ _ hp hr
+
+/-- **finalize_host_spec**: the host variable after the hop: `host_rewrite` when configured — unconditionally, whatever host
+variable / host headers the request arrived with —, else the value of the `auto_host_rewrite_header` header AFTER the header
+mutations when present, else (auto_host_rewrite on a STRICT_DNS cluster) the upstream host name, else untouched -/
+theorem finalize_host_spec (r : Route) (s : Req) : (finalizeRequest r s).host = specHost r s := finalizeRequest_host r s
+
+theorem host_rewrite_regardless (r : Route) (s : Req) (hc : r.cfg.hostRewrite ≠ "") :
+    (finalizeRequest r s).host = some r.cfg.hostRewrite := by
+  rw [finalize_host_spec]; simp [specHost, hc]
+
+/-- **two_hop**: a MOSN → MOSN chain.  The second hop receives what the first hop produced (its path variable, its headers —
+the original-path header the first hop recorded included — and its host variable).  Each hop rewrites ITS OWN received path:
+the final path is `rewrite₂(rewrite₁(p))`, and when the second hop rewrites, the recorded original is the path the second hop
+received (= `rewrite₁(p)`), not the first hop's. -/
+theorem two_hop (r1 r2 : Route) (s : Req) :
+    (finalizeRequest r2 (finalizeRequest r1 s)).path = specPath r2 (specPath r1 s.path) ∧
+    (rewrites r2 (specPath r1 s.path) = true →
+      get (finalizeRequest r2 (finalizeRequest r1 s)).hdrs headerOriginalPath = specPath r1 s.path) := by
+  constructor
+  · rw [finalize_path_spec, finalize_path_spec]
+  · intro h
+    rw [finalize_headers_spec]
+    simp [specHeader, finalize_path_spec, h]
+
+-- non-vacuity / tests (evaluated)
+def exRoute (prw m : String) : Route :=
+  { kind := .prefix, matched := m, cfg := ⟨prw, "", false, "up.example", "", false⟩,
+    levels := ⟨⟨[⟨"x-a", "1", true⟩], ["x-mosn-original-path"]⟩, ⟨[], []⟩, ⟨[], []⟩⟩, regexReplace := id, env := ⟨false, "", ""⟩ }
+def exReq : Req := ⟨[("x-mosn-original-path", "/forged"), ("x-a", "0")], some "/api/users", some "client.host"⟩
+example : specRewrite (exRoute "/v2" "/api") "/api/users" = some "/v2/users" := by decide
+example : exReq.path = some (String.ofList ((exRoute "/v2" "/api").matched.toList ++ "/users".toList)) := by decide
+#guard (finalizeRequest (exRoute "/v2" "/api") exReq).path == some "/v2/users"
+#guard get (finalizeRequest (exRoute "/v2" "/api") exReq).hdrs "x-mosn-original-path" == some "/api/users"
+#guard get (finalizeRequest (exRoute "/v2" "/api") exReq).hdrs "x-a" == some "0,1"
+#guard (finalizeRequest (exRoute "/v2" "/api") exReq).host == some "up.example"
+-- no rewrite at this hop: the configured removal of the (forged) original-path header is applied
+#guard get (finalizeRequest (exRoute "/v2" "/zzz") exReq).hdrs "x-mosn-original-path" == none
+-- two hops: the second hop rewrites the path it received and records that one
+#guard (finalizeRequest (exRoute "/svc" "/v2") (finalizeRequest (exRoute "/v2" "/api") exReq)).path == some "/svc/users"
+#guard get (finalizeRequest (exRoute "/svc" "/v2") (finalizeRequest (exRoute "/v2" "/api") exReq)).hdrs "x-mosn-original-path" == some "/v2/users"
+example : rewrites (exRoute "/svc" "/v2") (specPath (exRoute "/v2" "/api") exReq.path) = true := by decide
+
+end Finalize
 
 end MosnVerif.Props.C17
